@@ -482,7 +482,7 @@ Fixpoint zinsert (x : Z) (l : list Z) : list Z :=
   end.
 
 (** supportsResetStreamAt of the open outgoing streams (fixes/C15-reset-stream-at-without-consent.patch):
-    a stream is created with the map's current flag; HandleTransportParameters stores the peer's
+    a stream is created with the map's current flag; the transport-parameter handler of streams_map.go stores the peer's
     flag and switches the extension on for the streams that are already open ONLY if the peer
     enabled it; deleting a stream / replacing the maps forgets it. *)
 Definition rsa_update (o : op) (s' : smap) (r : res) : smap :=
